@@ -111,9 +111,8 @@ func (s *Session) hostFun(f *ref.Fun) *val.Val {
 				rargs[i] = ref.Arg{V: rv}
 			}
 		}
-		ev := &ref.Evaluator{}
+		ev := &ref.Evaluator{OnTrace: func(t ref.TraceEntry) { obs.Trace = append(obs.Trace, t) }}
 		out := f.Impl(ev, nil, rargs)
-		obs.Trace = append(obs.Trace, ev.Trace...)
 		if o, ok := orig[out]; ok {
 			return o
 		}
